@@ -509,6 +509,9 @@ mod request {
                 if byte == chars::LF {
                     lf_in_row += 1;
                     if lf_in_row == 2 {
+                        // No header lines. The body starts after this LF
+                        // (at `header_end - 1`, see the end of this function).
+                        header_end += 1;
                         break;
                     }
                 } else {
